@@ -237,6 +237,8 @@ int open(const char *path, int flags, ...)
   if (flags & O_CREAT) { va_list ap; va_start(ap, flags); mode = (mode_t)va_arg(ap, int); va_end(ap); }
   pthread_mutex_lock(&mu); init(); pthread_mutex_unlock(&mu);
   if (strncmp(path, "/proc/", 6) == 0) return real_open(path, flags, mode);
+  /* the hook layer's trace file is not part of the program's I/O */
+  if (getenv("VERIF_TRACE") != NULL && strcmp(path, getenv("VERIF_TRACE")) == 0) return real_open(path, flags, mode);
   r = enter(O_OPEN, -1, path);
   if (r & 1) { errno = fail_errno; return -1; }
   rv = real_open(path, flags, mode);
